@@ -8,7 +8,8 @@ Driver for C22 (stateful): the model state follows the harness' history.
   `op revive <ids>`                   → `<ok|err:kind> <flags> <state>`
 * `gen <entry> <dom>`                 → what `Entry::generate_spn` returns (`<spn>` or `none`)
 
-`<entry>` = `id/kind/L|R/names/spn`; kind `g` group, `a` account, `ga` both, `o` neither;
+`<entry>` = `id/kind/L|R/names/spn`; kind `g` group, `a` account (`p` person / `s` service account
+on input), `ga` both, `o` neither;
 names `-` or `n1,n2` (sorted on output); spn `-` absent, `S=n@d;n2@d2` SPN syntax (sorted on
 output), `I=n` single stashed iname, `O` other syntax.
 `<mod>` = `pn` | `+n=s` | `-n=s` | `ps` | `+s=n@d` | `-s=n@d`.
@@ -51,6 +52,8 @@ def kind? (l : List Char) : Option (Bool × Bool) :=
   match l with
   | ['g'] => some (true, false)
   | ['a'] => some (false, true)
+  | ['p'] => some (false, true)
+  | ['s'] => some (false, true)
   | ['g', 'a'] => some (true, true)
   | ['o'] => some (false, false)
   | _ => none
